@@ -6,7 +6,7 @@ T_DEC = "K2 (rendered model text = real generate() text), K3 (model semantics = 
 CLAIMED = {
  "C01": ("Coq: C01_roundtrip -- for every specification satisfying the decidable hypothesis sup_b, every declared type, every well-typed value with size-exact array elements, every fuel >= need x, offset, suffix: the emitted decoder returns exactly the value and leaves the cursor after its encoding (mutual induction over the typing derivation; union arm selection by the emitted match patterns proved in UnionProofs); C01_refuted_F1; sup_b evaluated on every corpus specification; " + T_DEC,
          "compiler-correctness theorem about the model of the emitters + header.rs; the model is tied to the real generator text (K2) and to the compiled decoders (K3) on every run, and the theorem's hypothesis is measured on the corpus", "DESIGN.md 0 and 7 C01"),
- "C02": ("Coq: C02_size_characterised -- for all specifications satisfying wf_size and all well-typed values, emitted wire_size() + 4*nF1 = |RFC 4506 encoding| (induction over the typing derivation), C02_exact, C02_wsz_mult4, C02_refuted_F1; " + T_DEC,
+ "C02": ("Coq: C02_size_characterised -- for all specifications satisfying wf_size and all well-typed values, emitted wire_size() + 4*nF1 = |RFC 4506 encoding| (induction over the typing derivation), C02_exact, C02_wsz_mult4, C02_refuted_F1; C02_decoder_consumes_wire_size -- on F1-free specifications (sup4_b, nof1_b) every successful decode of ANY input consumed exactly wire_size() of the returned value; " + T_DEC,
          "the universal statement is a theorem about the model of the emitters and of header.rs; the model is tied to the code on every run", "DESIGN.md 7 C02"),
  "C03": ("Coq: C03_frame for every emitted module, type and input; families are two renderings of one IR body (K2) and both compiled families are run on every input (K3)",
          "frame theorem holds for all inputs, valid or not; independence of suffix/offset is checked on the real decoders", "DESIGN.md 7 C03"),
@@ -20,8 +20,8 @@ CLAIMED = {
          "compilation is observed, not proved; the keyword lemma is re-proved against the regenerated tables on every run", "DESIGN.md 7 C07"),
  "C08": ("Coq: C08_views for every emitted module, type and input: every non-empty opaque leaf is a view into the input at the offset where its bytes lie; K3 compares real pointer offsets",
          "theorem holds for all inputs and all specifications; pointer identity is observed by the harness", "DESIGN.md 7 C08"),
- "C09": ("Coq: C09_requests_bounded for every emitted module, type, input and outcome: each allocator request is at most the bytes remaining; K3a: real allocator bytes = model ledger",
-         "per-request bound is a theorem for all inputs; the linear total is observed (counting allocator) on hostile counts", "DESIGN.md 7 C09"),
+ "C09": ("Coq: C09_requests_bounded for every emitted module, type, input and outcome: each allocator request is at most the bytes remaining; C09_refuted_linear_F15 (self-nested counted arrays: the SUM is quadratic, known finding F15); K3a: real allocator bytes = model ledger; hostile, wrapping and nested counts under a counting allocator",
+         "per-request bound is a theorem for all inputs; the linear total is observed (counting allocator) and refuted on the F15 class", "DESIGN.md 7 C09"),
  "C10": ("Coq theorems over Runtime.v (reader contracts for all n, r, max; all 2^32 boolean words) + K3 exhaustive grid correspondence with header.rs + independent contract oracle",
          "theorems quantify over every buffer, length and maximum; the model of header.rs is tied to the code on the exhaustive (n, r, max) grid", "DESIGN.md 7 C10"),
  "C11": ("Coq: generic index depends only on the set of items (order independence via C13); source scan for nondeterminism; real generator in fresh processes / shared Generator; layout and permutation variants compared item by item",
